@@ -1,15 +1,17 @@
 // sinksh — correspondence driver for C13 (writer.Sink, FileSink's format selection and special paths, ChannelSink).
 // It runs, on the real sinks built from the tree under test:
-//   w  every format table of 0..3 formats (each stored value empty / one byte / several bytes) x configured format
-//      (unset, json, x, y, an absent one) x writer behaviour (accepts, fails, fails after half, short, writes nothing,
-//      claims too much), plus nil writer / nil event / nil Formatted map;
-//   c  1..16 goroutines calling Process concurrently on one writer.Sink whose destination records the byte stream
-//      (one byte at a time, yielding, and noticing overlapping Write calls); the stream is split back into whole values;
-//   f  FileSink.Process on a regular file, /dev/null, /dev/stdout, /dev/stderr, a file whose writes fail (symlink to
-//      /dev/full) and a directory that cannot be created;
-//   h  ChannelSink.Process in timed scenarios: channel empty / receiver waiting / full / drained late x context never,
-//      already done, cancelled or expiring early or late x timeout short or long.  Competing arms are either a few ms
-//      or seconds apart, so the arm that must win is certain; arms within the slack are both accepted.
+//
+//	w  every format table of 0..3 formats (each stored value empty / one byte / several bytes) x configured format
+//	   (unset, json, x, y, an absent one) x writer behaviour (accepts, fails, fails after half, short, writes nothing,
+//	   claims too much), plus nil writer / nil event / nil Formatted map;
+//	c  1..16 goroutines calling Process concurrently on one writer.Sink whose destination records the byte stream
+//	   (one byte at a time, yielding, and noticing overlapping Write calls); the stream is split back into whole values;
+//	f  FileSink.Process on a regular file, /dev/null, /dev/stdout, /dev/stderr, a file whose writes fail (symlink to
+//	   /dev/full) and a directory that cannot be created;
+//	h  ChannelSink.Process in timed scenarios: channel empty / receiver waiting / full / drained late x context never,
+//	   already done, cancelled or expiring early or late x timeout short or long.  Competing arms are either a few ms
+//	   or seconds apart, so the arm that must win is certain; arms within the slack are both accepted.
+//
 // and prints cases_*.v for Run_Sinks.mismatches.
 package main
 
@@ -20,12 +22,15 @@ import (
 	"flag"
 	"fmt"
 	"os"
+	"os/exec"
+	"os/signal"
 	"path/filepath"
 	"runtime"
 	"sort"
 	"strings"
 	"sync"
 	"sync/atomic"
+	"syscall"
 	"time"
 
 	el "github.com/hashicorp/eventlogger"
@@ -62,12 +67,17 @@ type Case struct {
 	// f: 0 /dev/null 1 stdout 2 stderr 3 file 4 failing file 5 no directory
 	FKind int `json:"fkind,omitempty"`
 	// h (ms; -1 = never; ctx 0 = already done)
-	Timeout  int    `json:"timeout,omitempty"`
-	Chan     string `json:"chan,omitempty"` // empty waiting full nobody drained arrives
-	ChanAt   int    `json:"chan_at,omitempty"`
-	Ctx      string `json:"ctx,omitempty"` // none done cancel deadline
-	CtxAt    int    `json:"ctx_at,omitempty"`
-	Slack    int    `json:"slack,omitempty"`
+	Timeout int    `json:"timeout,omitempty"`
+	Chan    string `json:"chan,omitempty"` // empty waiting full nobody drained arrives
+	ChanAt  int    `json:"chan_at,omitempty"`
+	Ctx     string `json:"ctx,omitempty"` // none done cancel deadline
+	CtxAt   int    `json:"ctx_at,omitempty"`
+	Slack   int    `json:"slack,omitempty"`
+	// p: FileSink with writes failing part-way: RLIMIT_FSIZE = Limit bytes per file (set in a child process);
+	// RotMode 0 no rotation, 1 rotation with time-stamped names (reopen opens a fresh file), 2 TimestampOnlyOnRotate; Lens = record sizes
+	Limit   int   `json:"limit,omitempty"`
+	RotMode int   `json:"rot_mode,omitempty"`
+	Lens    []int `json:"lens,omitempty"`
 }
 
 func bytesOf(v []int) []byte {
@@ -553,6 +563,218 @@ func litH(c Case, o hobs) string {
 		hc.N(o.Arm), hc.B(o.Delivered), hc.B(o.Same), hc.Z(o.Latency))
 }
 
+// ---------- p: FileSink under RLIMIT_FSIZE (executed in a child process; results come back over a pipe) ----------
+type PStep struct {
+	Res    int     `json:"res"`
+	Deltas [][]int `json:"deltas"`
+}
+type PReq struct {
+	Scratch string `json:"scratch"`
+	Cases   []Case `json:"cases"`
+}
+type PResp struct {
+	Steps [][]PStep `json:"steps"` // per case
+	Err   string    `json:"err,omitempty"`
+}
+
+func recordValue(i, n int) []int {
+	v := make([]int, n)
+	for j := range v {
+		v[j] = 97 + (i*7+j)%26
+	}
+	if n > 0 {
+		v[n-1] = 10
+	}
+	return v
+}
+
+func snapshotDir(dir string) map[string][]byte {
+	m := map[string][]byte{}
+	ents, _ := os.ReadDir(dir)
+	for _, e := range ents {
+		if e.IsDir() {
+			continue
+		}
+		b, _ := os.ReadFile(filepath.Join(dir, e.Name()))
+		m[e.Name()] = b
+	}
+	return m
+}
+
+// fsizeChild runs in the re-executed child: it alone lives under the lowered RLIMIT_FSIZE
+func fsizeChild() {
+	var req PReq
+	if err := json.NewDecoder(os.Stdin).Decode(&req); err != nil {
+		fmt.Fprintln(os.Stderr, err)
+		os.Exit(2)
+	}
+	signal.Ignore(syscall.SIGXFSZ) // EFBIG comes with SIGXFSZ, which would kill the process
+	var old syscall.Rlimit
+	resp := PResp{}
+	if err := syscall.Getrlimit(syscall.RLIMIT_FSIZE, &old); err != nil {
+		resp.Err = err.Error()
+	}
+	for ci, c := range req.Cases {
+		if resp.Err != "" {
+			break
+		}
+		dir := filepath.Join(req.Scratch, fmt.Sprintf("p%04d", ci))
+		if err := os.MkdirAll(dir, 0o700); err != nil {
+			resp.Err = err.Error()
+			break
+		}
+		fs := &el.FileSink{Path: dir, FileName: "f.log"}
+		if c.RotMode >= 1 {
+			fs.MaxBytes = 1 << 20
+		}
+		if c.RotMode == 2 {
+			fs.TimestampOnlyOnRotate = true
+		}
+		if err := syscall.Setrlimit(syscall.RLIMIT_FSIZE, &syscall.Rlimit{Cur: uint64(c.Limit), Max: old.Max}); err != nil {
+			resp.Err = err.Error()
+			break
+		}
+		var steps []PStep
+		prev := snapshotDir(dir)
+		for i, n := range c.Lens {
+			e := &el.Event{Type: "t", Formatted: map[string][]byte{el.JSONFormat: bytesOf(recordValue(i, n))}}
+			var out *el.Event
+			var err error
+			panicked := false
+			func() {
+				defer func() {
+					if r := recover(); r != nil {
+						panicked = true
+					}
+				}()
+				out, err = fs.Process(context.Background(), e)
+			}()
+			st := PStep{Res: classify(out, err, panicked), Deltas: [][]int{}}
+			now := snapshotDir(dir)
+			var names []string
+			for k := range now {
+				names = append(names, k)
+			}
+			sort.Strings(names)
+			for _, k := range names {
+				d := now[k]
+				if p, ok := prev[k]; ok && len(p) <= len(d) {
+					d = d[len(p):]
+				}
+				if len(d) > 0 {
+					st.Deltas = append(st.Deltas, intsOf(d))
+				}
+			}
+			prev = now
+			steps = append(steps, st)
+		}
+		resp.Steps = append(resp.Steps, steps)
+	}
+	_ = syscall.Setrlimit(syscall.RLIMIT_FSIZE, &old)
+	json.NewEncoder(os.Stdout).Encode(resp)
+}
+
+func execP(cases []Case, scratch string) ([][]PStep, error) {
+	dir, err := os.MkdirTemp(scratch, "fsize")
+	if err != nil {
+		return nil, err
+	}
+	defer os.RemoveAll(dir)
+	req, _ := json.Marshal(PReq{Scratch: dir, Cases: cases})
+	cmd := exec.Command(os.Args[0], "-fsize-child")
+	cmd.Stdin = strings.NewReader(string(req))
+	cmd.Stderr = os.Stderr
+	outb, err := cmd.Output()
+	if err != nil {
+		return nil, fmt.Errorf("child: %v", err)
+	}
+	var resp PResp
+	if err := json.Unmarshal(outb, &resp); err != nil {
+		return nil, err
+	}
+	if resp.Err != "" {
+		return nil, errors.New(resp.Err)
+	}
+	return resp.Steps, nil
+}
+
+func litP(c Case, steps []PStep) string {
+	s := make([]string, len(steps))
+	for i, st := range steps {
+		ds := make([]string, len(st.Deltas))
+		for j, d := range st.Deltas {
+			ds[j] = nlist(d)
+		}
+		s[i] = fmt.Sprintf("(%s, Build_pobs %s %s)", nlist(recordValue(i, c.Lens[i])), hc.N(st.Res), hc.List(ds))
+	}
+	return fmt.Sprintf("(%s, CP (Build_pcase %s %s\n %s))", hc.N(c.ID), hc.N(c.Limit), hc.B(c.RotMode == 1), hc.List(s))
+}
+
+func genP(e *emitter, r *hc.Rand, nRandom int) {
+	var cases []Case
+	lens := []int{8, 10, 16, 24, 30}
+	var rec func(cur []int)
+	rec = func(cur []int) {
+		if len(cur) > 0 {
+			for mode := 0; mode <= 2; mode++ {
+				cases = append(cases, Case{Kind: "p", Gen: "exhaustive", Limit: 24, RotMode: mode, Lens: append([]int(nil), cur...)})
+			}
+		}
+		if len(cur) == 3 {
+			return
+		}
+		for _, l := range lens {
+			rec(append(cur, l))
+		}
+	}
+	rec(nil)
+	for i := 0; i < nRandom; i++ {
+		c := Case{Kind: "p", Gen: "random", Limit: 20 + r.Intn(60), RotMode: r.Intn(3)}
+		for k := 1 + r.Intn(6); k > 0; k-- {
+			c.Lens = append(c.Lens, 1+r.Intn(c.Limit+10))
+		}
+		cases = append(cases, c)
+	}
+	e.runP(cases)
+}
+
+func (e *emitter) runP(cases []Case) {
+	if len(cases) == 0 {
+		return
+	}
+	for i := range cases {
+		if cases[i].ID == 0 {
+			cases[i].ID = e.id()
+		}
+	}
+	steps, err := execP(cases, e.scratch)
+	if err != nil {
+		fmt.Fprintf(os.Stderr, "sinksh: the RLIMIT_FSIZE child could not run: %v\n", err)
+		e.mu.Lock()
+		e.stats["p:skipped(child failed: "+err.Error()+")"] += len(cases)
+		e.mu.Unlock()
+		return
+	}
+	for i, c := range cases {
+		retried, partialOK := false, false
+		for _, st := range steps[i] {
+			if len(st.Deltas) > 1 {
+				retried = true
+				if st.Res == 0 {
+					partialOK = true
+				}
+			}
+		}
+		stat := fmt.Sprintf("p:mode%d", c.RotMode)
+		if partialOK {
+			stat += ":success-after-partial-write"
+		} else if retried {
+			stat += ":retried-into-fresh-file"
+		}
+		e.record(c, litP(c, steps[i]), stat, true)
+	}
+}
+
 // ---------- emitter ----------
 type emitter struct {
 	cf      *hc.CaseFile
@@ -807,6 +1029,10 @@ func runCorpus(e *emitter, path string) {
 		}
 		c.Gen = "corpus"
 		c.ID = 0
+		if c.Kind == "p" {
+			e.runP([]Case{c})
+			continue
+		}
 		e.run(c)
 	}
 }
@@ -814,13 +1040,19 @@ func runCorpus(e *emitter, path string) {
 func main() {
 	out := flag.String("out", ".", "output directory")
 	prefix := flag.String("prefix", "cases", "case file prefix")
-	modes := flag.String("modes", "w,c,f,h", "generators")
+	modes := flag.String("modes", "w,c,f,h,p", "generators")
 	concRounds := flag.Int("conc-rounds", 2, "rounds of 1..16 concurrent threads")
 	chanRepeat := flag.Int("chan-repeat", 1, "repetitions of the channel scenarios")
 	perShard := flag.Int("per-shard", 250, "cases per file")
 	corpus := flag.String("corpus", "", "corpus file (JSON lines), run first")
 	replay := flag.String("replay", "", "replay one JSON case and print its observations")
+	partialRandom := flag.Int("partial-random", 60, "random record-size sequences for the part-way failing write cases")
+	child := flag.Bool("fsize-child", false, "internal: run FileSink cases read from stdin under RLIMIT_FSIZE")
 	flag.Parse()
+	if *child {
+		fsizeChild()
+		return
+	}
 
 	scratch, err := os.MkdirTemp(*out, "scratch")
 	if err != nil {
@@ -857,6 +1089,19 @@ func main() {
 			o := execH(c)
 			js, _ := json.Marshal(o)
 			fmt.Printf("  -> %s (arm 0 sent, 1 context error, 2 timeout error)\n", js)
+		case "p":
+			steps, err := execP([]Case{c}, scratch)
+			if err != nil {
+				fmt.Printf("  child failed: %v\n", err)
+				break
+			}
+			for i, st := range steps[0] {
+				fmt.Printf("  record %d %q -> result %d (0 ok, 1 error); bytes added per file in creation order:", i, string(bytesOf(recordValue(i, c.Lens[i]))), st.Res)
+				for _, d := range st.Deltas {
+					fmt.Printf(" %q", string(bytesOf(d)))
+				}
+				fmt.Println()
+			}
 		}
 		return
 	}
@@ -883,6 +1128,8 @@ func main() {
 			genF(e)
 		case "h":
 			genH(e, *chanRepeat)
+		case "p":
+			genP(e, r.Fork(), *partialRandom)
 		case "":
 		default:
 			fmt.Fprintf(os.Stderr, "unknown mode %s\n", m)
